@@ -51,6 +51,83 @@ theorem parseStream_spec (env : Env R) (hd : env.decrypt = none) (info : Dict R)
       simpa [Nat.add_assoc] using this
     exact hs4.slice
 
+/-- `parseCtx_stream` (Lemmas/Indirect) with the place of the data made explicit: the data stands at
+    `dataPos`, followed by at least `endstream` -/
+theorem parseCtx_stream_at (env : Env R) (hd : env.decrypt = none) (info : Dict R) (data txt : List UInt8)
+    (hsp : SpellsStream env.parseReal info data txt) (hwf : WFE info) (hnd : (keysOf info).Nodup)
+    (hlen : LengthIs env info data.length) {buf : Buf} (hsz : buf.size ≤ 2147483647)
+    (g rest : List UInt8) (pos fuel : Nat) (id : Nat × Nat) (depth : Nat) (hg : Gap g)
+    (h : Suffix buf pos (g ++ txt ++ rest)) (hb : Bnd rest) (hfuel : 2 + needE info ≤ fuel)
+    (hdepth : 1 + vdepthE info ≤ depth) (flags : Nat) (hfl : flags &&& Flags.dict ≠ 0) :
+    ∃ dataPos more, parseCtx env buf fuel pos (some id) flags depth =
+        .ok (streamAt env info id dataPos data.length, pos + g.length + txt.length) ∧
+      Suffix buf dataPos (data ++ more) ∧ more ≠ [] := by
+  obtain ⟨g1, ents, g2, eol, g3, rfl, hg1, hents, hg2, heol, hg3⟩ := hsp
+  obtain ⟨f, rfl⟩ : ∃ f, fuel = f + 2 := ⟨fuel - 2, by omega⟩
+  obtain ⟨hn, hsl⟩ := next_double g 60 (g1 ++ ents ++ g2 ++ kwStream ++ eol ++ data ++ g3 ++ kwEndstream ++ rest) pos hg
+    (by simpa [PdfSyntax.kwStream, PdfSyntax.kwEndstream, kwStream, kwEndstream] using h) (Or.inl rfl)
+  have hs2 : Suffix buf (pos + g.length + 2) (g1 ++ ents ++ (g2 ++ kwStream ++ eol ++ data ++ g3 ++ kwEndstream ++ rest)) := by
+    have := Suffix.drop (a := g ++ [60, 60]) (s := g1 ++ ents ++ (g2 ++ kwStream ++ eol ++ data ++ g3 ++ kwEndstream ++ rest))
+      (by simpa [PdfSyntax.kwStream, PdfSyntax.kwEndstream, kwStream, kwEndstream] using h)
+    simpa [Nat.add_assoc] using this
+  have hdict := parseDict_spells env hd info ents hents hwf hsz g1 _ (pos + g.length + 2) f (some id) (depth - 1) [] hg1 hs2
+    hnd (by simp [keysOf]) (by omega) (by omega)
+  have hs3 : Suffix buf (pos + g.length + 2 + g1.length + ents.length)
+      (g2 ++ kwStream ++ eol ++ data ++ g3 ++ kwEndstream ++ rest) := by
+    have := Suffix.drop (a := g1 ++ ents) (by simpa using hs2)
+    simpa [Nat.add_assoc] using this
+  have hbe : Bnd (eol ++ data ++ g3 ++ kwEndstream ++ rest) := by rcases heol with rfl | rfl <;> (simp [Bnd]; decide)
+  obtain ⟨hn2, hsl2⟩ := next_regular g2 kwStream (eol ++ data ++ g3 ++ kwEndstream ++ rest) _ hg2 (by simpa using hs3)
+    (by decide) kw_stream_regular hbe
+  have hso := parseStreamObject_spec env hsz info g2 eol data g3 rest _ id hg2 heol hg3 hlen hs3 hb
+  refine ⟨pos + g.length + 2 + g1.length + ents.length + g2.length + kwStream.length + eol.length,
+    g3 ++ kwEndstream ++ rest, ?_, ?_, by simp [kwEndstream]⟩
+  · have e1 : (([60, 60] : List UInt8) == [60, 60]) = true := by decide
+    have c1 : check flags Flags.dict = .ok () := check_ok hfl
+    have hd0 : (depth == 0) = false := by simp; omega
+    simp only [parseCtx, parseInner, remainingStart_ok h.le, hn, Out.bind_ok, hsl, e1, if_true, c1, hd0,
+      Bool.false_eq_true, if_false, hdict, List.nil_append, peek_ok hn2, hsl2, beq_self_eq_true, hso, streamAt]
+    simp [PdfSyntax.kwStream, PdfSyntax.kwEndstream, kwStream, kwEndstream]; omega
+  · have := Suffix.drop (a := g2 ++ kwStream ++ eol) (s := data ++ (g3 ++ kwEndstream ++ rest)) (by simpa using hs3)
+    simpa [Nat.add_assoc] using this
+
+/-- `parseIndirectObject_stream` (Lemmas/Indirect) with the place of the data made explicit -/
+theorem parseIndirectObject_stream_at (env : Env R) (hd : env.decrypt = none) (info : Dict R) (data txt : List UInt8)
+    (hsp : SpellsStream env.parseReal info data txt) (hwf : WFE info) (hnd : (keysOf info).Nodup)
+    (hlen : LengthIs env info data.length) {buf : Buf} (hsz : buf.size ≤ 2147483647)
+    (g0 a g1 b g2 g3 g4 rest : List UInt8) (id gen pos fuel : Nat) (hg0 : Gap g0)
+    (ha : PdfSyntax.NatTok a id) (hb : PdfSyntax.NatTok b gen) (hg1 : Gap g1) (hg1ne : g1 ≠ []) (hg2 : Gap g2) (hg2ne : g2 ≠ [])
+    (hid : id ≤ 18446744073709551615) (hgen : gen ≤ 18446744073709551615) (hg3 : Gap g3) (hg4 : Gap g4) (hg4ne : g4 ≠ [])
+    (h : Suffix buf pos (g0 ++ a ++ g1 ++ b ++ g2 ++ kwObj ++ g3 ++ txt ++ g4 ++ kwEndobj ++ rest))
+    (hbnd : Bnd rest) (hfuel : 2 + needE info ≤ fuel) (hdepth : 1 + vdepthE info ≤ maxDepth)
+    (flags : Nat) (hfl : flags &&& Flags.dict ≠ 0) :
+    ∃ dataPos more, parseIndirectObject env buf fuel pos flags =
+        .ok (((id, gen), streamAt env info (id, gen) dataPos data.length),
+          pos + (g0 ++ a ++ g1 ++ b ++ g2 ++ kwObj ++ g3 ++ txt ++ g4 ++ kwEndobj).length) ∧
+      Suffix buf dataPos (data ++ more) ∧ more ≠ [] := by
+  have htx : ∃ t', txt = 60 :: t' := by
+    obtain ⟨g1', ents, g2', eol, g3', rfl, _⟩ := hsp
+    exact ⟨_, rfl⟩
+  obtain ⟨t', ht'⟩ := htx
+  have hb3 : Bnd (g3 ++ txt ++ g4 ++ kwEndobj ++ rest) := by
+    cases g3 with
+    | nil => subst ht'; simp [Bnd]; decide
+    | cons c g3' => simpa using gap_bnd hg3 (by simp) (txt ++ g4 ++ kwEndobj ++ rest)
+  have hhead := parseObjHeader_spec g0 a g1 b g2 (g3 ++ txt ++ g4 ++ kwEndobj ++ rest) id gen pos hg0 ha hb hg1 hg1ne hg2
+    hg2ne hid hgen (by simpa using h) hb3
+  have h2 : Suffix buf (pos + (g0 ++ a ++ g1 ++ b ++ g2 ++ kwObj).length) (g3 ++ txt ++ (g4 ++ kwEndobj ++ rest)) := by
+    have := Suffix.drop (a := g0 ++ a ++ g1 ++ b ++ g2 ++ kwObj) (s := g3 ++ txt ++ (g4 ++ kwEndobj ++ rest)) (by simpa using h)
+    simpa using this
+  have h3 : Suffix buf (pos + (g0 ++ a ++ g1 ++ b ++ g2 ++ kwObj).length + g3.length + txt.length) (g4 ++ kwEndobj ++ rest) := by
+    have := Suffix.drop (a := g3 ++ txt) (by simpa using h2)
+    simpa [Nat.add_assoc] using this
+  obtain ⟨dataPos, more, hv, hdata, hmore⟩ := parseCtx_stream_at env hd info data txt hsp hwf hnd hlen hsz g3 (g4 ++ kwEndobj ++ rest) _ fuel
+    (id, gen) maxDepth hg3 h2 (by simpa using gap_bnd hg4 hg4ne (kwEndobj ++ rest)) hfuel hdepth flags hfl
+  have he := nextExpect_regular g4 kwEndobj rest _ hg4 h3 (by decide) kw_endobj_regular hbnd
+  refine ⟨dataPos, more, ?_, hdata, hmore⟩
+  simp only [parseIndirectObject, hhead, Out.bind_ok, hv, he]
+  cases env.allowMissingEndobj <;> simp <;> omega
+
 /-- `n 0 obj <stream object> endobj` as `save` writes its cross-reference stream, read by
     `parse_indirect_stream`, followed by the `startxref` trailer: what `xrefStreamHead` returns -/
 theorem xrefStreamHead_spec (env : Env R) (hd : env.decrypt = none) (info : Dict R) (data txt : List UInt8)
